@@ -29,12 +29,16 @@ fn like<A: Encode + EncodeLike<B>, B: Encode + Decode + Uni>(cx: &mut Cx, fam: &
 			(Some(x), Some(y)) if y.same(&x) => Some(x),
 			_ => None,
 		};
-		(ea, eb, d)
+		(ea, eb, d, entry_points(a))
 	}));
 	match r {
 		Err(_) => cx.oracle.check(false, "encode-like-panic", || fam.to_string()),
-		Ok((ea, eb, d)) => {
+		Ok((ea, eb, d, (ua, ta, sz))) => {
 			let rp = || format!("{fam}\ta={}\tb={}", hex(&ea[..ea.len().min(80)]), hex(&eb[..eb.len().min(80)]));
+			// whichever way A's bytes are obtained, they are these bytes
+			cx.oracle.check(ua == ea && ta == ea && sz == ea.len(), "encode-like-bytes-differ/entry-point", || {
+				format!("{fam}\tencode={}\tusing_encoded={}\tencode_to={}\tencoded_size={sz}", hex(&ea[..ea.len().min(80)]), hex(&ua[..ua.len().min(80)]), hex(&ta[..ta.len().min(80)]))
+			});
 			if same_bytes {
 				cx.oracle.check(ea == eb, "encode-like-bytes-differ", rp);
 			}
@@ -50,11 +54,23 @@ fn like<A: Encode + EncodeLike<B>, B: Encode + Decode + Uni>(cx: &mut Cx, fam: &
 /// targets that cannot be decoded (references): compare with the target value's own bytes
 fn like_enc<A: Encode + EncodeLike<B>, B: Encode>(cx: &mut Cx, fam: &str, a: &A, b: &B) {
 	cx.stats.bump(&format!("family/{fam}"));
-	let r = catch_unwind(AssertUnwindSafe(|| (a.encode(), b.encode())));
+	let r = catch_unwind(AssertUnwindSafe(|| (a.encode(), b.encode(), entry_points(a))));
 	match r {
 		Err(_) => cx.oracle.check(false, "encode-like-panic", || fam.to_string()),
-		Ok((ea, eb)) => cx.oracle.check(ea == eb, "encode-like-bytes-differ", || format!("{fam}\ta={}\tb={}", hex(&ea[..ea.len().min(80)]), hex(&eb[..eb.len().min(80)]))),
+		Ok((ea, eb, (ua, ta, sz))) => {
+			cx.oracle.check(ea == eb, "encode-like-bytes-differ", || format!("{fam}\ta={}\tb={}", hex(&ea[..ea.len().min(80)]), hex(&eb[..eb.len().min(80)])));
+			cx.oracle.check(ua == eb && ta == eb && sz == eb.len(), "encode-like-bytes-differ/entry-point", || {
+				format!("{fam}\tb={}\tusing_encoded={}\tencode_to={}\tencoded_size={sz}", hex(&eb[..eb.len().min(80)]), hex(&ua[..ua.len().min(80)]), hex(&ta[..ta.len().min(80)]))
+			});
+		},
 	}
+}
+/// A's bytes through the other entry points of Encode
+fn entry_points<A: Encode>(a: &A) -> (Vec<u8>, Vec<u8>, usize) {
+	let ua = a.using_encoded(|s| s.to_vec());
+	let mut ta = vec![];
+	a.encode_to(&mut ta);
+	(ua, ta, a.encoded_size())
 }
 
 fn round<T: Uni + Encode + Decode + Clone + EncodeLike + Ord + 'static>(cx: &mut Cx, tn: &str) {
